@@ -1,0 +1,14 @@
+// Copyright 2026 The Go Authors. All rights reserved.
+// Use of this source code is governed by a BSD-style
+// license that can be found in the LICENSE file.
+
+//go:build verif
+
+package salsa
+
+// VerifGenericXORKeyStream calls genericXORKeyStream, the portable
+// implementation of XORKeyStream, regardless of whether an assembly
+// implementation is in use. It exists only for conformance checking.
+func VerifGenericXORKeyStream(out, in []byte, counter *[16]byte, key *[32]byte) {
+	genericXORKeyStream(out, in, counter, key)
+}
